@@ -42,6 +42,10 @@ func schedule(c *rt.Ctx) []Case {
 	for di, d := range []string{"mysql", "postgres"} {
 		// ---- the monitor's own family
 		bases := [][]string{nil, midFlags, richFlags, append([]string{"idx.uq", "uqc", "pk2", "col.def", "enum.v3", "enumcol.def", "idx.where"}, richFlags...)}
+		if d == "postgres" {
+			// enum objects without a schema back-reference / attached through column types only
+			bases = append(bases, append([]string{"enum.noschema"}, richFlags...), append([]string{"enum.noschema", "enum.noobj"}, midFlags...), append([]string{"enum.noobj"}, richFlags...))
+		}
 		for _, b := range bases {
 			cases = append(cases,
 				Case{Dialect: d, Src: "own", Des: b, CurEmpty: true},
@@ -128,6 +132,10 @@ func schedule(c *rt.Ctx) []Case {
 				cases = append(cases, cs)
 			}
 		}
+	}
+	// every scenario is also planned with one hostile custom qualifier (rotating over the classes)
+	for i := range cases {
+		cases[i].Hostile = hostile[i%len(hostile)]
 	}
 	return cases
 }
